@@ -108,7 +108,13 @@ def gen_reaction(r, model, species, allow=("massaction", "hill", "general"), bou
     k = rate(r)
     if kind == "massaction":
         rxn["type"] = "massaction"
-        rxn["pd"] = {"k": maybe_named(r, model, "k", k)}
+        prev = [x for x in model.get("reactions", []) if x["type"] == "massaction" and x.get("prop_species") is None]
+        if prev and r.random() < 0.2:
+            # the same rate constant as an earlier reaction: refmodel.to_bioscrape then hands bioscrape the SAME dict object
+            # for both (a parameter dictionary re-used by the caller must not tie the reactions together)
+            rxn["pd"] = dict(r.choice(prev)["pd"])
+        else:
+            rxn["pd"] = {"k": maybe_named(r, model, "k", k)}
     elif kind == "hill":
         typ = r.choice(HILLS)
         s1 = r.choice(species)
